@@ -359,7 +359,8 @@ def rule_d(repo, chk):
         chk.ob('C16.d', kwarg(c, 'reverse') is None, c, 'ascending order')
 
 
-ORDER_FREE = {'sorted', 'sorted_definitions', '_sort_names_by_start_pos', 'set', 'frozenset', 'len', 'any', 'all', 'sum', 'min', 'max', 'bool'}
+ORDER_FREE = {'sorted', 'sorted_definitions', '_sort_names_by_start_pos', 'set', 'frozenset', 'len', 'any', 'all', 'sum', 'min', 'max', 'bool',
+              'ValueSet', 'from_sets'}     # a ValueSet is a set again: the order of what goes in is immaterial
 SET_SEQ_TRIAGED = {
     # construct key -> why the order of this in-place set does not reach a result
     'jedi.inference.references:find_references|set((d.get_root_context() for d in found_names))':
@@ -380,17 +381,15 @@ def _is_set_expr(e, setvars=()):
 
 
 def _set_locals(f):
-    """locals bound exactly once, to an in-place set"""
-    cnt, isset = {}, {}
+    """locals whose (textually) last binding is an in-place set"""
+    last = {}
     for a in stmts_in(f, (ast.Assign, ast.AugAssign)):
         tg = a.targets if isinstance(a, ast.Assign) else [a.target]
         for t in tg:
             for x in ast.walk(t):
                 if isinstance(x, ast.Name):
-                    cnt[x.id] = cnt.get(x.id, 0) + 1
-                    if isinstance(a, ast.Assign) and x is t and _is_set_expr(a.value):
-                        isset[x.id] = True
-    return {k for k in isset if cnt.get(k) == 1}
+                    last[x.id] = isinstance(a, ast.Assign) and x is t and bool(_is_set_expr(a.value))
+    return {k for k, v in last.items() if v}
 
 
 def rule_e(repo, chk):
